@@ -1,21 +1,29 @@
 """C18 — invalid configurations are rejected up front, by whatever route they reach setup_config
 (fresh input file, restart file the program wrote and the user edited, infretis.toml replaced by
-an equal restart.toml); accepted ones are valid; the defaults filled in by setup_config are a
-fixed point (restart files re-read unchanged).
+an equal restart.toml); accepted ones are valid and initialise; the defaults filled in by
+setup_config are a fixed point (restart files re-read unchanged) and are filled in BEFORE the
+validation.
 
 Theorems: coq/theorems/C18.v (model coq/model/ConfigM.v = infretis/setup.py: check_config, the
-defaults of setup_config, and the route into setup_config, `setup_from`).  Tie: functional
-lock-step of the real `check_config` (configuration dict built directly) and of the real
-`setup_config` (TOML files written to a scratch directory, all three routes) against the extracted
-model, exhaustive over a small scope and seeded random beyond it.  Oracle: the property's list,
-written here independently of both the code and the model (and cross-checked against the
-proved-correct `validb` of the model): an invalid configuration must end in TOMLConfigError — not
-in acceptance, not in another exception.  The restart fixed point is exercised with the real
-`REPEX_state.write_toml`; the restart route with restart files written by the real write_toml and
-by real runs (py/sysharness.py), each edited in every way of the property's list.
+default-filling statements of setup_config one by one in program order with check_config last, and
+the route into setup_config, `setup_from`).  Tie: functional lock-step of the real `check_config`
+(configuration dict built directly) and of the real `setup_config` (TOML files written to a scratch
+directory, all three routes) against the extracted model, exhaustive over a small scope and seeded
+random beyond it.  Oracle: the property's list, written here independently of both the code and the
+model (and cross-checked against the proved-correct `validb` of the model), applied to the file
+after the DOCUMENTED defaults (`documented_defaults`): an invalid configuration must end in
+TOMLConfigError - not in acceptance, not in another exception; and whatever setup_config accepts
+must get through the real setup_internal and the first picks (`try_initialise`) without any
+exception.  The restart fixed point is exercised with the real `REPEX_state.write_toml`; the restart
+route with restart files written by the real write_toml and by real runs (py/sysharness.py), each
+edited in every way of the property's list; the order of normalisation and validation with the
+product of all fields the defaults touch (quantis, [engine0], [engine], ensemble_engines,
+lambda_minus_one, seed, accept_all) on directories in which the program has really run.
 
-Only lightly covered here: "accepted configurations initialise" (the valid continuation of every
-real run is run on to the end); see the uncalled hook `accepted_initialises` below.
+Robustness: every call into the implementation is guarded; an exception or an answer outside its
+domain (None, a malformed configuration, a configuration error on the program's own restart file)
+is a finding reported with the configuration at hand, never a crash of the check (`run` keeps a
+last-resort net that reports whatever escapes together with the configuration under test).
 """
 import importlib.util  # noqa: F401
 import copy
@@ -33,8 +41,8 @@ META = {
     "id": "C18",
     "level": "proof",
     "technique": "Coq theorems over an executable model of check_config/setup_config defaults (decision procedure with explicit Python truthiness and exceptions) + exhaustive small-scope lock-step of the extracted model vs the real check_config / setup_config",
-    "text": "Unbounded theorems (any interface list over Q, worker count, move list, cap, lambda_minus_one, quantis, engine lists and tables): accepted => valid; invalid => configuration error that truthfully names a violated clause, never acceptance, never another exception; no IndexError on any input; exact characterisation of acceptance; the defaults are idempotent; and the route is no excuse: for a fresh input file and for a restart file at any step (setup_from, both values of 'has a [current] table') an invalid configuration gets a configuration error and never reaches sampling, a restart that goes on is treated exactly like a fresh start, and no answer (None) is given only for a finished run or a missing stored path. The model is tied to /repo by running it and the real check_config/setup_config on the same configurations (all interface lists up to length 4 over 4 values x workers x move lists x caps x lambda_minus_one x quantis x engines defined/undefined, random engine tables) and by evaluating the property's list directly on the implementation's outcome; the restart fixed point is checked on files written by the real write_toml. Restart route: restart.toml files written by the real write_toml (about 100 accepted random configurations, quick tier) and left behind by 6 real runs of the program on the lattice engine (completed and stopped with jobs in flight) are edited as a user would - every position of every class of the property's list (workers; interfaces swapped / duplicated / reversed / cut to 0 or 1 / one added; shooting moves dropped; cap below, on, between and above every interface, alone and with each ensemble made wire fencing; undefined engine per ensemble, engine table removed; lambda_minus_one on/above lambda_0), harmless edits (more steps only, fewer workers, ...) and random replacements of all validated fields - written back with tomli_w and handed to the real setup_config by each route (restart.toml as input; infretis.toml + equal restart.toml; [current] stripped): an invalid edit must raise TOMLConfigError with the stored paths untouched, the outcome must equal the model's setup_from, and the plain continuation of every real run (steps raised only) must be accepted and run on to the end.",
-    "note": "Trusted: Coq kernel; extraction (ExtrOcamlBasic) + OCaml driver; this harness (generators, encoders, the Python oracle — cross-checked on every case against the model's validb, which is proved equivalent to the Coq predicate valid). 'Leaving a wire-fencing ensemble no room' is read as: some ensemble i < n_ens with move 'wf' has interface_cap <= interfaces[max(i-1,0)] (its region [interface, cap) is empty). Required keys (simulation.interfaces, shooting_moves, tis_set, runner.workers, output.data_dir) are assumed present and of the right type; numbers are ints/dyadic floats so comparisons are exact. accepted_initialises (ensembles/weights/first picks) is only checked for the valid continuation of the real runs of the restart route (py/sysharness.py), not for every accepted configuration. Restart route: 'before sampling starts' is observed at setup_config (infretis.bin.internalrun / infretisrun hand whatever it returns straight to the scheduler; a None return ends the program), a finished run (cstep == steps) or a missing stored path makes setup_config return None before any check - modelled (setup_from = None), no sampling, not counted as a rejection; the stub-written restart files carry an empty frac table and a fresh rng state, the real-run ones are exactly what the program left. Observation outside the property's list: quantis together with lambda_minus_one = 0.0 is accepted (0.0 is falsy in 'quantis and lambda_minus_one'); modelled faithfully, not reported.",
+    "text": "Unbounded theorems (any interface list over Q, worker count, move list, cap, lambda_minus_one, quantis, engine lists and tables): accepted => valid; invalid => configuration error that truthfully names a violated clause, never acceptance, never another exception; no IndexError on any input; exact characterisation of acceptance; the defaults are idempotent; and the route is no excuse: for a fresh input file and for a restart file at any step (setup_from, both values of 'has a [current] table') an invalid configuration gets a configuration error and never reaches sampling, a restart that goes on is treated exactly like a fresh start, and no answer (None) is given only for a finished run or a missing stored path. The model is tied to /repo by running it and the real check_config/setup_config on the same configurations (all interface lists up to length 4 over 4 values x workers x move lists x caps x lambda_minus_one x quantis x engines defined/undefined, random engine tables) and by evaluating the property's list directly on the implementation's outcome; the restart fixed point is checked on files written by the real write_toml. Restart route: restart.toml files written by the real write_toml (about 100 accepted random configurations, quick tier) and left behind by 6 real runs of the program on the lattice engine (completed and stopped with jobs in flight) are edited as a user would - every position of every class of the property's list (workers; interfaces swapped / duplicated / reversed / cut to 0 or 1 / one added; shooting moves dropped; cap below, on, between and above every interface, alone and with each ensemble made wire fencing; undefined engine per ensemble, engine table removed; lambda_minus_one on/above lambda_0), harmless edits (more steps only, fewer workers, ...) and random replacements of all validated fields - written back with tomli_w and handed to the real setup_config by each route (restart.toml as input; infretis.toml + equal restart.toml; [current] stripped): an invalid edit must raise TOMLConfigError with the stored paths untouched, the outcome must equal the model's setup_from, and the plain continuation of every real run (steps raised only) must be accepted and run on to the end. Order of normalisation and validation (the validity of a file can depend on what setup_config itself fills in: quantis = true without ensemble_engines gives [0-] the engine 'engine0', which then needs a table): the model composes the six default-filling statements in program order and validates last (C18_setup_config / C18_setup_any_route: the verdict IS check_config (normalise c), and an accepted quantis file without an engine list has a table [engine0]; C18_example_order refutes the variant that validates first); the check enumerates quantis {absent,false,true} x [engine0] {present,absent,misnamed} x [engine] {present,absent} x ensemble_engines {absent, [], all engine, engine0 first, engine0 last, both, undefined name} x lambda_minus_one {absent,false,-1.5,0.0,=interfaces[0]} x seed {absent,given} x accept_all {absent,given} (workers 1/n-1/n in turn) on 3 lattice set-ups (quick; 6 thorough) in which the program has really run, each as a fresh input file and as the edited restart file of that run (given as input / next to an equal infretis.toml): invalid after the documented defaults => TOMLConfigError with the stored paths untouched, outcome and returned configuration == the model's setup_from, and EVERY accepted configuration is taken through the real setup_internal (REPEX state, ensembles, stored paths and weights, engines, order parameters) and the first `workers` picks (initiate/prep_md_items) - any exception there, a missing engine object, a zero own-ensemble weight or a pick outside the ensembles is a violation with that file as input.",
+    "note": "Trusted: Coq kernel; extraction (ExtrOcamlBasic) + OCaml driver; this harness (generators, encoders, the Python oracle — cross-checked on every case against the model's validb, which is proved equivalent to the Coq predicate valid). 'Leaving a wire-fencing ensemble no room' is read as: some ensemble i < n_ens with move 'wf' has interface_cap <= interfaces[max(i-1,0)] (its region [interface, cap) is empty). Required keys (simulation.interfaces, shooting_moves, tis_set, runner.workers, output.data_dir) are assumed present and of the right type; numbers are ints/dyadic floats so comparisons are exact. 'Accepted configurations initialise' is checked with real engines only: for every accepted configuration of the order block (lattice plug-in engine; about 1800 per quick run) through setup_internal and the first picks, and for the plain continuation of the real runs of the restart route through to the end of the run; the random input files of the setup_config block name gromacs/turtlemd tables without input files and are not started. The explicit ensemble_engines lists of the order block have one entry per interface (check_config does not validate the length of that list; outside the property's list, not explored here). Restart route: 'before sampling starts' is observed at setup_config (infretis.bin.internalrun / infretisrun hand whatever it returns straight to the scheduler; a None return ends the program), a finished run (cstep == steps) or a missing stored path makes setup_config return None before any check - modelled (setup_from = None), no sampling, not counted as a rejection; the stub-written restart files carry an empty frac table and a fresh rng state, the real-run ones are exactly what the program left. Observation outside the property's list: quantis together with lambda_minus_one = 0.0 is accepted (0.0 is falsy in 'quantis and lambda_minus_one'); modelled faithfully, not reported.",
     "design_ref": "4/C18",
 }
 LEVEL = "proof"
@@ -174,8 +182,48 @@ def real_check(cfg):
 
 
 def outcome_class(s):
-    """OK / CE / CRASH:<type> (the kind of configuration error is informative only)"""
+    """OK / NONE / CE / CRASH:<type> (the kind of configuration error is informative only)"""
     return "CE" if s.startswith("CE") else s
+
+
+def how_met(oc):
+    """an outcome of the implementation that is not a configuration error, in words"""
+    if oc == "OK":
+        return "accepted"
+    if oc == "NONE":
+        return "answered with None (no error, nothing set up)"
+    return "met with " + (oc[6:] if oc.startswith("CRASH:") else oc)
+
+
+def exc_text(e):
+    return f"{type(e).__name__}: {e}"[:400]
+
+
+def raised_by_implementation(e):
+    """does the traceback of e pass through the infretis package (and not only the harness)?"""
+    tb, hit = e.__traceback__, False
+    while tb is not None:
+        fn = tb.tb_frame.f_code.co_filename.replace(os.sep, "/")
+        if "/infretis/" in fn:
+            hit = True
+        tb = tb.tb_next
+    return hit
+
+
+def safe_invalid_reasons(cfg, extra_keys=()):
+    """the oracle on a configuration the IMPLEMENTATION returned: an answer outside the domain
+    (not a dict, missing tables, wrong types) is itself a reason, never a crash of the check"""
+    try:
+        return invalid_reasons(cfg, extra_keys)
+    except Exception as e:  # noqa: BLE001
+        return [f"returned configuration malformed ({exc_text(e)})"]
+
+
+def safe_enc_normalised(cfg, extra_keys=()):
+    try:
+        return enc_normalised(cfg, extra_keys)
+    except Exception as e:  # noqa: BLE001
+        return f"MALFORMED {exc_text(e)}"
 
 
 # --------------------------------------------------------------------------- the oracle
@@ -418,9 +466,13 @@ def real_setup(raw, d):
         tomli_w.dump(raw, f)
     try:
         cfg = setup_config("infretis.toml", "restart.toml")
-        return "OK", cfg
     except Exception as e:  # noqa: BLE001
         return classify_exc(e, TOMLConfigError), None
+    if cfg is None:
+        return "NONE", None
+    if not isinstance(cfg, dict):
+        return "CRASH:returned " + type(cfg).__name__, None
+    return "OK", cfg
 
 
 def write_restart_real(cfg):
@@ -449,33 +501,55 @@ def touch_active_paths(cfg, d):
 
 def restart_fixed_point(cfg1, d):
     """cfg1 = accepted, normalised configuration. Write restart.toml with the real write_toml,
-    re-read it with the real setup_config, twice.  Returns None or an error string."""
+    re-read it with the real setup_config, twice.  Returns None or an error string; whatever the
+    implementation raises on the way (a configuration error on its own restart file included) is
+    such an error, not a crash of the check."""
     from infretis.setup import setup_config
-    def write(cfg):
-        write_restart_real(cfg)
 
+    def step(what, fn, *a):
+        try:
+            return fn(*a), None
+        except Exception as e:  # noqa: BLE001
+            return None, f"{what} is met with {exc_text(e)}"
+
+    cstep1 = cfg1["current"]["cstep"]
     touch_active_paths(cfg1, d)
-    write(cfg1)
-    cfg2 = setup_config("restart.toml", "restart.toml")
+    _, err = step("writing the restart file (write_toml) of the accepted configuration", write_restart_real, cfg1)
+    if err:
+        return err
+    cfg2, err = step("the restart file written from the accepted configuration, read back by setup_config,",
+                     setup_config, "restart.toml", "restart.toml")
+    if err:
+        return err
     if cfg2 is None:
         return "setup_config returned None on the restart file"
-    if cfg2["current"].pop("restarted_from", None) != cfg1["current"]["cstep"]:
-        return "restarted_from not set to cstep"
-    ref = json.loads(json.dumps(cfg1, default=str))
-    if json.loads(json.dumps(cfg2, default=str)) != ref:
-        diff = [k for k in set(cfg1) | set(cfg2) if json.dumps(cfg1.get(k), default=str, sort_keys=True) != json.dumps(cfg2.get(k), default=str, sort_keys=True)]
-        return f"re-reading the written restart file changed sections {diff}"
-    # a step later, written and read again
-    cfg2["current"]["cstep"] = cfg1["current"]["cstep"] + 1
-    cfg2["current"]["restarted_from"] = cfg1["current"]["cstep"]
-    write(cfg2)
-    cfg3 = setup_config("restart.toml", "restart.toml")
+    try:
+        if cfg2["current"].pop("restarted_from", None) != cstep1:
+            return "restarted_from not set to cstep"
+        ref = json.loads(json.dumps(cfg1, default=str))
+        if json.loads(json.dumps(cfg2, default=str)) != ref:
+            diff = [k for k in set(cfg1) | set(cfg2) if json.dumps(cfg1.get(k), default=str, sort_keys=True) != json.dumps(cfg2.get(k), default=str, sort_keys=True)]
+            return f"re-reading the written restart file changed sections {diff}"
+        # a step later, written and read again
+        cfg2["current"]["cstep"] = cstep1 + 1
+        cfg2["current"]["restarted_from"] = cstep1
+    except Exception as e:  # noqa: BLE001
+        return f"re-reading the written restart file gave a malformed configuration ({exc_text(e)})"
+    _, err = step("writing the second restart file (write_toml)", write_restart_real, cfg2)
+    if err:
+        return err
+    cfg3, err = step("the second restart file, read back by setup_config,", setup_config, "restart.toml", "restart.toml")
+    if err:
+        return err
     if cfg3 is None:
         return "setup_config returned None on the second restart file"
-    cfg3["current"].pop("restarted_from", None)
-    cfg2["current"].pop("restarted_from", None)
-    if json.loads(json.dumps(cfg3, default=str)) != json.loads(json.dumps(cfg2, default=str)):
-        return "second re-read of the restart file is not a fixed point"
+    try:
+        cfg3["current"].pop("restarted_from", None)
+        cfg2["current"].pop("restarted_from", None)
+        if json.loads(json.dumps(cfg3, default=str)) != json.loads(json.dumps(cfg2, default=str)):
+            return "second re-read of the restart file is not a fixed point"
+    except Exception as e:  # noqa: BLE001
+        return f"second re-read of the restart file gave a malformed configuration ({exc_text(e)})"
     return None
 
 
@@ -644,6 +718,8 @@ def real_setup_route(edited, route, d, keep_data=False):
             cfg = setup_config("infretis.toml", "restart.toml")
     except Exception as e:  # noqa: BLE001
         return classify_exc(e, TOMLConfigError), None
+    if cfg is not None and not isinstance(cfg, dict):
+        return "CRASH:returned " + type(cfg).__name__, None
     return ("NONE" if cfg is None else "OK"), cfg
 
 
@@ -682,10 +758,16 @@ def real_run_restart_cases(case):
                       steps=case["steps"], seed=case["seed"], cap=case.get("cap"),
                       lambda_minus_one=case.get("lm1"), n_jumps=case.get("n_jumps", 2),
                       extra_engine=case.get("extra_engine"), ensemble_engines=case.get("ensemble_engines"))
-        res = H.run_sim(wd, stop_after=case.get("stop_after"))
-        H.reset_class_state()
-        with open(os.path.join(wd, "restart.toml"), "rb") as f:
-            written = tomli.load(f)
+        with open(os.path.join(wd, "infretis.toml"), "rb") as f:
+            first_input = tomli.load(f)
+        try:
+            res = H.run_sim(wd, stop_after=case.get("stop_after"))
+            H.reset_class_state()
+            with open(os.path.join(wd, "restart.toml"), "rb") as f:
+                written = tomli.load(f)
+        except Exception as e:  # noqa: BLE001  (a valid lattice set-up must start and run)
+            return {"case": case, "run_failed": exc_text(e), "from_impl": raised_by_implementation(e),
+                    "config": first_input}
         info = {"status": res["status"], "cstep": written["current"]["cstep"],
                 "locked": len(written["current"]["locked"])}
         cstep = written["current"]["cstep"]
@@ -702,9 +784,7 @@ def real_run_restart_cases(case):
                 rec = {"label": label, "cls": cls, "edited": edited, "route": route, "impl": real,
                        "paths_present": True, "touched": tree_state(wd) != before}
                 if cfg is not None:
-                    rec["returned_invalid"] = invalid_reasons(cfg)
-                    rec["restarted_from"] = cfg["current"].get("restarted_from")
-                    rec["enc"] = enc_normalised(cfg)
+                    rec.update(describe_returned(cfg))
                 records.append(rec)
             # a finished run and a run with a lost path: setup_config answers None
             fin = apply_edit(written, lambda c: None, cstep)
@@ -759,16 +839,256 @@ def real_run_cases(tier):
     return cases
 
 
-# --------------------------------------------------------------------------- TODO hook
+# --------------------------------------------------------------------------- accepted => initialises
 
 
-def accepted_initialises(ctx, configs):
-    """TODO (system harness, py/impl_drivers/system.py): for every accepted configuration in
-    `configs` (dicts as returned by setup_config) create valid lattice initial paths, run the real
-    setup_internal (REPEX_state.__init__, initiate_ensembles, load_paths with calc_cv_vector) and
-    the first `workers` pick()/pick_lock() calls, and report any exception or a zero-weight initial
-    path as a violation of C18.  NOT CALLED by run(): this part of the property is not yet checked."""
-    raise NotImplementedError("needs the system harness")
+def describe_returned(cfg):
+    """what the checks look at in a configuration returned by setup_config (never raises)"""
+    try:
+        rf = cfg["current"].get("restarted_from")
+    except Exception:  # noqa: BLE001
+        rf = "MALFORMED"
+    return {"returned_invalid": safe_invalid_reasons(cfg), "enc": safe_enc_normalised(cfg), "restarted_from": rf}
+
+
+def try_initialise(cfg):
+    """What scheduler() does with a configuration setup_config returned, up to the first MD step:
+    the real setup_internal (REPEX state, ensembles, stored paths and their weights, engines,
+    order parameters) and the first `workers` picks (initiate / prep_md_items: pick, lock, engine
+    assignment).  Must be called in a directory holding the stored paths.  ANY exception, and any
+    answer outside its domain, is reported: {"ok", "stage", "error"}."""
+    import sysharness as H
+    from infretis.core import tis
+    from infretis.setup import setup_internal
+    H.reset_class_state()
+    stage = "setup_internal"
+    problems = []
+    try:
+        sim = cfg["simulation"]
+        n = len(sim["interfaces"])
+        workers = cfg["runner"]["workers"]
+        left = sim["steps"] - cfg["current"]["cstep"]
+        md_items, state = setup_internal(cfg)
+        stage = "the state after setup_internal"
+        if len(state.ensembles) != n:
+            problems.append(f"{len(state.ensembles)} ensembles for {n} interfaces")
+        used = sorted({e for ens in sim["ensemble_engines"] for e in ens})
+        for e in used:
+            if not tis.ENGINES.get(e):
+                problems.append(f"no engine object for '{e}'")
+        for i in range(n):
+            t = state._trajs[i]
+            if isinstance(t, str):
+                problems.append(f"ensemble {i} has no path")
+            elif not state.state[i][i] > 0:
+                problems.append(f"path {t.path_number} has weight {state.state[i][i]} in its ensemble {i}")
+        stage = "the first picks (initiate / prep_md_items)"
+        n_picks = 0
+        while state.initiate():
+            w = state.prep_md_items(copy.deepcopy(md_items))
+            n_picks += 1
+            if not w.get("picked"):
+                problems.append(f"pick {n_picks} is empty")
+                continue
+            for ens, d in w["picked"].items():
+                if not -1 <= ens < n - 1:
+                    problems.append(f"pick {n_picks}: ensemble {ens} out of range")
+                for eng, idx in d["eng_idx"].items():
+                    if eng not in tis.ENGINES or not 0 <= idx < len(tis.ENGINES[eng]):
+                        problems.append(f"pick {n_picks}: ensemble {ens} is given engine '{eng}'[{idx}], which does not exist")
+            if n_picks > workers + 1:
+                problems.append("more first picks than workers")
+                break
+        if n_picks != max(min(workers, left), 0):
+            problems.append(f"{n_picks} first picks for {workers} workers and {left} steps left")
+    except Exception as e:  # noqa: BLE001
+        return {"ok": False, "stage": stage, "error": exc_text(e)}
+    finally:
+        try:
+            H.reset_class_state()
+        except Exception:  # noqa: BLE001
+            pass
+    return {"ok": not problems, "stage": "the answers of setup_internal / the first picks", "error": "; ".join(problems)}
+
+
+# --------------------------------------------------------------------------- order of normalisation and validation
+#
+# setup_config first fills in defaults - one ["engine"] per interface when no (non-empty)
+# ensemble_engines is given, seed = 0, quantis / lambda_minus_one / accept_all = false, and under
+# quantis (without an engine list of its own) ["engine0"] for [0-] - and only THEN validates.
+# Whether a file is valid can depend on what these statements put in place: quantis = true without
+# ensemble_engines needs a table [engine0].  This block enumerates the fields the defaults touch, on
+# directories in which the program has really run (lattice engine), so that every configuration
+# setup_config accepts can be taken through the real setup_internal and the first picks:
+#   quantis {absent, false, true} x [engine0] {present, absent, misnamed} x [engine] {present, absent}
+#   x ensemble_engines {absent, [], all "engine", "engine0" first, "engine0" last, both per
+#   ensemble, an undefined name} x lambda_minus_one {absent, false, valid, 0.0, = interfaces[0]}
+#   x seed {absent, given} x accept_all {absent, given} (workers in turn 1, n-1, n),
+# each as a fresh input file AND as the restart file the run left behind, edited.
+
+ORDER_Q = (A, False, True)
+ORDER_E0 = ("present", "absent", "misnamed")
+ORDER_E = (True, False)
+ORDER_EE = ("absent", "empty", "engine", "engine0-first", "engine0-last", "both", "undefined")
+ORDER_SEED = (A, 7)
+ORDER_AA = (A, True)
+
+
+def order_bases(tier):
+    bases = [
+        {"n_intf": 2, "moves": None, "cap": None, "seed": 11},
+        {"n_intf": 3, "moves": None, "cap": None, "seed": 12},
+        {"n_intf": 3, "moves": ["sh", "sh", "wf"], "cap": 2.25, "seed": 13},
+    ]
+    if tier == "thorough":
+        bases += [
+            {"n_intf": 4, "moves": ["sh", "wf", "wf", "sh"], "cap": 2.75, "seed": 14},
+            {"n_intf": 4, "moves": None, "cap": None, "seed": 15},
+            {"n_intf": 5, "moves": ["sh", "wf", "wf", "wf", "sh"], "cap": 3.75, "seed": 16},
+        ]
+    return bases
+
+
+def order_variations(base, tier):
+    """[(k, var)]: the full product of the fields the defaults of setup_config touch; workers in
+    turn (quick) or as a further factor (thorough)"""
+    n = base["n_intf"]
+    lm1s = (A, False, -1.5, 0.0, 0.5)           # interfaces[0] = 0.5 on the lattice
+    ws = sorted({1, n - 1, n})
+    out = []
+    k = 0
+    for q, e0, e, ee, lm1, sd, aa in itertools.product(ORDER_Q, ORDER_E0, ORDER_E, ORDER_EE, lm1s, ORDER_SEED, ORDER_AA):
+        for w in (ws if tier == "thorough" else [ws[k % len(ws)]]):
+            out.append((k, {"q": q, "e0": e0, "e": e, "ee": ee, "lm1": lm1, "seed": sd, "aa": aa, "w": w}))
+            k += 1
+    return out
+
+
+def order_engine_lists(kind, n):
+    if kind == "absent":
+        return A
+    if kind == "empty":
+        return []
+    if kind == "engine":
+        return [["engine"] for _ in range(n)]
+    if kind == "engine0-first":
+        return [["engine0"]] + [["engine"] for _ in range(n - 1)]
+    if kind == "engine0-last":
+        return [["engine"] for _ in range(n - 1)] + [["engine0"]]
+    if kind == "both":
+        return [["engine", "engine0"] for _ in range(n)]
+    return [["engine"] for _ in range(n - 1)] + [["engine7"]]      # no such table
+
+
+def order_label(var):
+    """the fields of the input file the variation sets, in words (what is left out is absent)"""
+    def show(v):
+        return json.dumps(v)
+    out = []
+    if not isinstance(var["q"], str):
+        out.append(f"quantis = {show(var['q'])}")
+    out.append({"present": "a table [engine0]", "absent": "no table [engine0]",
+                "misnamed": "no table [engine0] (but one called [engine_0])"}[var["e0"]])
+    if not var["e"]:
+        out.append("no table [engine]")
+    if var["ee"] == "absent":
+        out.append("no ensemble_engines")
+    else:
+        out.append(f"ensemble_engines = {json.dumps(order_engine_lists(var['ee'], 3))}" + (" (for 3 interfaces)" if var["ee"] != "empty" else ""))
+    for key, name in (("lm1", "lambda_minus_one"), ("seed", "seed"), ("aa", "accept_all")):
+        if not isinstance(var[key], str):
+            out.append(f"{name} = {show(var[key])}")
+    out.append(f"workers = {var['w']}")
+    return ", ".join(out)
+
+
+def order_edit(written, var, steps):
+    """the restart file `written` (a dict, as a real run left it) with the fields of `var` set or
+    removed as a user would"""
+    c = copy.deepcopy(written)
+    sim = c["simulation"]
+    tis = sim["tis_set"]
+    sim["steps"] = steps
+    c["runner"]["workers"] = var["w"]
+    for key, v in (("quantis", var["q"]), ("lambda_minus_one", var["lm1"]), ("accept_all", var["aa"])):
+        if isinstance(v, str):
+            tis.pop(key, None)
+        else:
+            tis[key] = v
+    if isinstance(var["seed"], str):
+        sim.pop("seed", None)
+    else:
+        sim["seed"] = var["seed"]
+    ee = order_engine_lists(var["ee"], len(sim["interfaces"]))
+    if ee is A:
+        sim.pop("ensemble_engines", None)
+    else:
+        sim["ensemble_engines"] = ee
+    eng = c.pop("engine")
+    for k in ("engine0", "engine_0"):
+        c.pop(k, None)
+    if var["e"]:
+        c["engine"] = dict(eng)
+    if var["e0"] == "present":
+        c["engine0"] = dict(eng, wall=-5)
+    elif var["e0"] == "misnamed":
+        c["engine_0"] = dict(eng, wall=-5)
+    return c
+
+
+def order_routes(k):
+    return ("fresh", ("restart", "equal")[k % 2])
+
+
+def order_block_child(job):
+    """(forked child) One real run of the program on the lattice engine, then every variation of
+    job["variations"] written into the input / restart file and handed to the real setup_config;
+    whatever it accepts goes on through the real setup_internal and the first picks."""
+    import tomli
+    import sysharness as H
+    import logging
+    logging.getLogger("main").setLevel(logging.CRITICAL)
+    base = job["base"]
+    wd = H.scratch("infv_c18o_")
+    try:
+        H.write_setup(wd, n_intf=base["n_intf"], moves=base.get("moves"), workers=1, steps=2,
+                      seed=base["seed"], cap=base.get("cap"))
+        with open(os.path.join(wd, "infretis.toml"), "rb") as f:
+            first_input = tomli.load(f)
+        try:
+            H.run_sim(wd)
+            H.reset_class_state()
+            with open(os.path.join(wd, "restart.toml"), "rb") as f:
+                written = tomli.load(f)
+            steps = written["current"]["cstep"] + 6
+        except Exception as e:  # noqa: BLE001
+            return {"base": base, "run_failed": exc_text(e), "from_impl": raised_by_implementation(e),
+                    "config": first_input}
+        records = []
+        cwd = os.getcwd()
+        os.chdir(wd)
+        try:
+            before = tree_state(wd)
+            for k, var in job["variations"]:
+                edited = order_edit(written, var, steps)
+                for route in job.get("routes") or order_routes(k):
+                    real, cfg = real_setup_route(edited, route, wd, keep_data=True)
+                    rec = {"k": k, "var": var, "route": route, "impl": real}
+                    if cfg is not None:
+                        rec.update(describe_returned(cfg))
+                        rec["init"] = try_initialise(cfg)
+                    after = tree_state(wd)          # nothing else writes here: = the state before the next case
+                    rec["touched"] = after != before
+                    before = after
+                    records.append(rec)
+                    for f in os.listdir(wd):
+                        if re.fullmatch(r"infretis_data_\d+\.txt", f):
+                            os.remove(os.path.join(wd, f))
+        finally:
+            os.chdir(cwd)
+        return {"base": base, "written": written, "steps": steps, "records": records}
+    finally:
+        common.rmtree(wd)
 
 
 # --------------------------------------------------------------------------- run
@@ -780,6 +1100,7 @@ class Tally:
     def __init__(self):
         self.best = {}
         self.n = {}
+        self.flushed = False
 
     def add(self, key, what, payload, found, rank=0):
         size = rank + len(json.dumps(payload["config"], default=str))
@@ -789,6 +1110,7 @@ class Tally:
 
     def flush(self, ctx, cap=8):
         # oracle findings first, smallest witness first; at most `cap` replay files
+        self.flushed = True
         ranked = sorted(self.best.items(), key=lambda kv: (not kv[1][3], kv[1][0]))
         for key, (size, what, payload, found) in ranked[:cap]:
             payload = dict(payload, cases_in_this_class=self.n[key], violation_classes_in_this_run=len(ranked))
@@ -801,6 +1123,28 @@ def run(ctx):
     if runner is None:
         return
     tally = Tally()
+    under_test = {}       # the configuration most recently handed to the implementation (last-resort net)
+    try:
+        _run(ctx, runner, tally, under_test)
+    except Exception as e:  # noqa: BLE001
+        # nothing of the implementation may crash the check: whatever escapes the guarded steps is
+        # reported with the configuration that was under test
+        import traceback
+        impl = raised_by_implementation(e) and under_test.get("config") is not None
+        tally.add(("escaped", type(e).__name__),
+                  (f"C18 fails on the implementation: {exc_text(e)} escaped from the implementation while the check was at step "
+                   f"'{under_test.get('step')}' on this configuration") if impl else
+                  f"harness error at step '{under_test.get('step')}' (not raised by the implementation): {exc_text(e)}",
+                  {"mode": under_test.get("mode", "none"), "config": under_test.get("config"), "route": under_test.get("route"),
+                   "step": under_test.get("step"), "traceback": traceback.format_exc()[-3000:],
+                   "expected": "TOMLConfigError or a configuration that initialises"}, impl)
+        if not tally.flushed:
+            tally.flush(ctx)
+
+
+def _run(ctx, runner, tally, under_test):
+    import time
+    t0 = time.time()
     stats = {"compared": 0, "disagreements": 0, "kind_agreement": 0, "oracle_vs_validb_disagreements": 0,
              "setup_compared": 0, "setup_disagreements": 0, "restart_roundtrips": 0,
              "outcomes": {}, "model_results": {},
@@ -838,7 +1182,7 @@ def run(ctx):
             if why and oc != "CE":
                 tally.add(("prop", mode, tuple(re.sub(r"\d+", "#", w) for w in why), oc),
                           f"C18 fails on the implementation: configuration with {', '.join(why)} is "
-                          + ("accepted" if oc == "OK" else f"met with {oc[6:]}") + " instead of TOMLConfigError",
+                          + how_met(oc) + " instead of TOMLConfigError",
                           dict(payload, expected="TOMLConfigError"), True)
                 stats["disagreements"] += outcome_class(m_check) != oc
                 continue
@@ -864,9 +1208,11 @@ def run(ctx):
             oc = outcome_class(real)
             parts = out.split(" ")
             cur = it["edited"]["current"]
-            payload = {"mode": "restart_edit", "route": route, "edit": it["label"], "config": it["edited"],
+            payload = {"mode": it.get("mode", "restart_edit"), "route": route, "edit": it["label"], "config": it["edited"],
                        "paths_present": it["paths_present"], "base": it["base"], "request": req, "impl": real,
                        "model": parts[0]}
+            if "case" in it:
+                payload["case"] = it["case"]
             ctx.count(f"route {route} {req}", nontrivial=True)
             ctx.dist(f"restart-route:{it['base_kind']}:{route}:{it['cls']}")
             rr["compared"] += 1
@@ -895,17 +1241,29 @@ def run(ctx):
                 tally.add(("oracle", "restart"), "harness oracle and the model's validb (proved = valid) disagree on an edited restart file",
                           dict(payload, obligation="python oracle == validb o normalise", validb=m_valid), False)
                 continue
+            init = it.get("init")
             if why and oc != "CE" and oc != "NONE":
                 how = {"restart": "given as the input file", "equal": "used in place of an infretis.toml with the same tables",
                        "fresh": "stripped of its [current] table (fresh start)"}[route]
-                tally.add(("prop-restart", route != "fresh", re.sub(r"\d+", "#", why[0]), oc),
-                          f"C18 fails on the implementation: a restart file written by the program at step {cur['cstep']}, then edited "
-                          f"({it['label']}; steps = {it['edited']['simulation']['steps']}) into a configuration with {', '.join(why)} and {how}, is "
-                          + ("accepted by setup_config (sampling would " + ("start" if route == "fresh" else f"go on from step {cur['cstep']}") + ")" if oc == "OK" else f"met with {oc[6:]}")
-                          + " instead of TOMLConfigError",
-                          dict(payload, expected="TOMLConfigError"), True,
+                then = ""
+                if oc == "OK":
+                    then = "accepted by setup_config (sampling would " + ("start" if route == "fresh" else f"go on from step {cur['cstep']}") + ")"
+                    if init is not None and not init["ok"]:
+                        then += f"; {init['stage']} then fails with {init['error']}"
+                else:
+                    then = how_met(oc)
+                if it["base_kind"] == "order":
+                    what = (f"C18 fails on the implementation: {it['label']} (" + ("fresh input file" if route == "fresh" else
+                            f"restart file of a real run at step {cur['cstep']}, {how}") + f"): with the documented defaults this has {', '.join(why)}, "
+                            f"yet it is {then} instead of TOMLConfigError")
+                else:
+                    what = (f"C18 fails on the implementation: a restart file written by the program at step {cur['cstep']}, then edited "
+                            f"({it['label']}; steps = {it['edited']['simulation']['steps']}) into a configuration with {', '.join(why)} and {how}, is "
+                            f"{then} instead of TOMLConfigError")
+                tally.add(("prop-restart", it["base_kind"] == "order", route != "fresh", re.sub(r"\d+", "#", why[0]), oc),
+                          what, dict(payload, expected="TOMLConfigError", **({"then": init} if init is not None else {})), True,
                           # witness: a single edit breaking a single clause, on a real run's file, if there is one
-                          rank=10 ** 7 * (len(why) - 1) + 10 ** 6 * (it["cls"] == "overlay") + 10 ** 5 * (it["base_kind"] != "real-run"))
+                          rank=10 ** 7 * (len(why) - 1) + 10 ** 6 * (it["cls"] == "overlay") + 10 ** 5 * (it["base_kind"] == "stub"))
                 rr["disagreements"] += outcome_class(m_res) != oc
                 continue
             if outcome_class(m_res) != oc:
@@ -933,6 +1291,25 @@ def run(ctx):
                     rr["disagreements"] += 1
                     tally.add(("corr-restart-from",), f"setup_config did not record the step it restarts from (route {route})",
                               dict(payload, correspondence="restarted_from == cstep"), False)
+                elif init is not None:
+                    rr["initialised"] = rr.get("initialised", 0) + 1
+                    if not init["ok"]:
+                        tally.add(("prop-init", route != "fresh", init["stage"], re.sub(r"\d+", "#", init["error"])[:60]),
+                                  f"C18 fails on the implementation: a configuration setup_config accepts ({it['label']}; route {route}) does not "
+                                  f"initialise: {init['stage']} fails with {init['error']}",
+                                  dict(payload, then=init, expected="accepted configurations initialise (setup_internal, first picks) without error"), True)
+
+    def run_failed(res, mode, case):
+        """a real run on a valid lattice set-up that did not get through"""
+        cfg = res["config"]
+        why = safe_invalid_reasons(documented_defaults(slim(cfg)))
+        found = bool(res.get("from_impl")) and not why and not res["run_failed"].startswith("TOMLConfigError")
+        tally.add(("real-run-raised", res["run_failed"][:40]),
+                  ("C18 fails on the implementation: a valid configuration (lattice engine, stored initial paths) does not "
+                   f"initialise and run: {res['run_failed']}") if found else
+                  f"real run failed ({'implementation' if res.get('from_impl') else 'harness'}): {res['run_failed']}",
+                  {"mode": mode, "config": cfg, "case": case, "error": res["run_failed"],
+                   "expected": "accepted configurations initialise and run"}, found)
 
     # ---------------- direct check_config: exhaustive small scope + random engine tables
     chunk = []
@@ -942,12 +1319,16 @@ def run(ctx):
             process(chunk, "check_config")
             chunk.clear()
 
+    under_test.update(mode="check_config", step="check_config on a configuration dict")
     for tag, cfg in itertools.chain(gen_small_scope(ctx), gen_engines(ctx, 20000 if ctx.tier == "quick" else 200000)):
+        under_test["config"] = cfg
         chunk.append((tag, cfg, real_check(cfg), (), cfg))
         if len(chunk) >= 200000:
             flush()
     flush()
 
+    stats["wall_s"] = {"check_config": round(time.time() - t0, 1)}
+    t0 = time.time()
     # ---------------- through setup_config with a TOML file, and the restart fixed point
     nsetup = 1500 if ctx.tier == "quick" else 15000
     d = common.scratch_dir("infv_c18_")
@@ -959,18 +1340,24 @@ def run(ctx):
         batch, norm_reqs, norm_meta = [], [], []
         for i in range(nsetup):
             raw = raw_toml_case(ctx)
+            under_test.update(mode="setup_config", step="setup_config on a fresh input file / restart round trip", config=raw)
             real, cfg = real_setup(raw, d)
             # what check_config sees inside setup_config: raw + defaults (+ "current"); the model
             # is given the raw file and applies its own normalise
             batch.append(("T", raw, real, ("current",), raw))
             if cfg is not None:
-                norm_meta.append((raw, cfg, enc_normalised(cfg)))
+                norm_meta.append((raw, cfg, safe_enc_normalised(cfg)))
                 if len(norm_meta) % 2 == 1:
-                    err = restart_fixed_point(cfg, d)
+                    try:
+                        err = restart_fixed_point(cfg, d)
+                    except Exception as e:  # noqa: BLE001  (a malformed answer of the implementation)
+                        err = f"the restart round trip of the accepted configuration fails with {exc_text(e)}"
                     stats["restart_roundtrips"] += 1
                     if err:
-                        tally.add(("restart", err[:30]), f"C18 fails on the implementation: {err}",
-                                  {"mode": "restart", "config": raw, "expected": "re-read restart file == written configuration"}, True)
+                        tally.add(("restart", re.sub(r"\d+", "#", err)[:60]),
+                                  f"C18 fails on the implementation: setup_config accepts this input file, but {err}",
+                                  {"mode": "restart", "config": raw, "impl": "OK",
+                                   "expected": "re-read restart file == written configuration"}, True)
         # model on raw: parts[2] = check_config (normalise c), parts[4:] = normalise c
         reqs = [encode(raw, ("current",)) for _, raw, _, _, _ in batch]
         outs = runner.run(reqs)
@@ -980,6 +1367,10 @@ def run(ctx):
             stats["setup_compared"] += 1
             ctx.count("setup " + req, nontrivial=True)
             ctx.dist("setup_config:T")
+            if out.startswith("ERR") or len(parts) != 14:
+                tally.add(("model-error", "setup"), f"model runner failed on a request: {out[:80]}",
+                          {"correspondence": "c18 runner", "mode": "setup_config", "config": raw, "request": req, "model": out}, False)
+                continue
             m_setup, m_nvalid = parts[2], parts[3] == "1"
             by_req[json.dumps(raw, sort_keys=True, default=str)] = parts
             oc = outcome_class(real)
@@ -994,8 +1385,8 @@ def run(ctx):
                           dict(payload, obligation="python oracle == validb o normalise", validb=m_nvalid), False)
             elif why and oc != "CE":
                 tally.add(("prop-setup", oc),
-                          f"C18 fails on the implementation: setup_config on an input file with {', '.join(why)} is "
-                          + ("accepted" if oc == "OK" else f"met with {oc[6:]}") + " instead of TOMLConfigError",
+                          f"C18 fails on the implementation: setup_config on an input file with {', '.join(why)} "
+                          "(after the documented defaults) is " + how_met(oc) + " instead of TOMLConfigError",
                           dict(payload, expected="TOMLConfigError"), True)
                 stats["setup_disagreements"] += outcome_class(m_setup) != oc
             elif outcome_class(m_setup) != oc:
@@ -1007,9 +1398,11 @@ def run(ctx):
         # holds on the returned configuration, and normalising the result again changes nothing
         again = []
         for raw, cfg, enc in norm_meta:
-            parts = by_req[json.dumps(raw, sort_keys=True, default=str)]
+            parts = by_req.get(json.dumps(raw, sort_keys=True, default=str))
+            if parts is None:
+                continue
             m_norm = " ".join(parts[4:])
-            why = invalid_reasons(cfg)
+            why = safe_invalid_reasons(cfg)
             if why:
                 tally.add(("prop-setup-accepted", tuple(why)),
                           f"C18 fails on the implementation: setup_config accepted a configuration with {', '.join(why)}",
@@ -1025,6 +1418,8 @@ def run(ctx):
             if " ".join(out.split(" ")[4:]) != req[4:]:
                 tally.add(("idem",), "extracted normalise is not idempotent on a normalised configuration",
                           {"mode": "model", "config": req, "model": out, "obligation": "C18_normalise_idempotent (extraction)"}, False)
+        stats["wall_s"]["setup_config"] = round(time.time() - t0, 1)
+        t0 = time.time()
         # ---------------- the restart route: program-written restart files, edited, re-read
         import tomli
         rr = stats["restart_route"]
@@ -1038,22 +1433,31 @@ def run(ctx):
             for f in os.listdir(d):
                 if f.endswith(".toml"):
                     os.remove(os.path.join(d, f))
-            touch_active_paths(base_cfg, d)
-            write_restart_real(base_cfg)
-            with open("restart.toml", "rb") as f:
-                written = tomli.load(f)
+            try:
+                touch_active_paths(base_cfg, d)
+                write_restart_real(base_cfg)
+                with open("restart.toml", "rb") as f:
+                    written = tomli.load(f)
+            except Exception as e:  # noqa: BLE001
+                tally.add(("restart-write", type(e).__name__),
+                          "C18 fails on the implementation: setup_config accepts this input file, but the restart file of the returned "
+                          f"configuration cannot be written and read back: {exc_text(e)}",
+                          {"mode": "restart", "config": raw, "impl": "OK", "expected": "a restart file the program wrote can be re-read"},
+                          raised_by_implementation(e))
+                continue
             rr["stub_written_files"] += 1
             base = {"kind": "restart.toml written by the real write_toml at step k from the configuration the real "
                             "setup_config returned for a fresh input file", "k": k, "fresh_input": raw}
             for j, (label, cls, edit) in enumerate(restart_edits(written, ctx.rng, 6)):
                 edited = apply_edit(written, edit, 20)
                 route = "restart" if j == 0 else ROUTES[(j + bi) % 3]
+                under_test.update(mode="restart_edit", step=f"setup_config on an edited restart file ({label})", config=edited,
+                                  route=route)
                 real, out = real_setup_route(edited, route, d)
                 it = {"label": label, "cls": cls, "edited": edited, "route": route, "impl": real,
                       "paths_present": True, "base": base, "base_kind": "stub"}
                 if out is not None:
-                    it.update(returned_invalid=invalid_reasons(out), enc=enc_normalised(out),
-                              restarted_from=out["current"].get("restarted_from"))
+                    it.update(describe_returned(out))
                 items.append(it)
             # no answer: the run is finished; a stored path is gone (checked on an invalid edit too)
             for label, edit in (("steps = cstep (finished)", lambda c: None),
@@ -1081,6 +1485,9 @@ def run(ctx):
                 tally.add(("real-run-failed",), f"real run for the restart route failed in the harness: {str(res)[:300]}",
                           {"mode": "restart_real_run", "config": case, "case": case, "error": str(res)[-2000:]}, False)
                 continue
+            if "run_failed" in res:
+                run_failed(res, "restart_real_run", case)
+                continue
             rr["real_runs"] += 1
             info = res["info"]
             rr["real_run_info"].append({k: info[k] for k in ("status", "cstep", "locked", "continuation")})
@@ -1092,6 +1499,41 @@ def run(ctx):
                           {"mode": "restart_real_run", "config": info["continued_config"], "case": case, "base": base,
                            "expected": "accepted configurations initialise and run"}, True)
             judge_restart([dict(r, base=base, base_kind="real-run") for r in res["records"]])
+
+        stats["wall_s"]["restart_route"] = round(time.time() - t0, 1)
+        t0 = time.time()
+        # ---------------- the order of normalisation and validation; accepted => initialises
+        jobs = []
+        for base in order_bases(ctx.tier):
+            vs = order_variations(base, ctx.tier)
+            jobs += [{"base": base, "variations": vs[i::4]} for i in range(4)]
+        ob = stats["order_block"] = {"bases": len(order_bases(ctx.tier)), "real_runs": 0, "configurations": 0,
+                                     "accepted": 0, "taken_through_setup_internal_and_first_picks": 0}
+        for job, (tag, res) in zip(jobs, H.run_many(order_block_child, jobs, jobs=12, timeout=600)):
+            if tag != "ok":
+                tally.add(("order-failed",), f"order block failed in the harness: {str(res)[:300]}",
+                          {"mode": "order", "config": job["base"], "error": str(res)[-2000:]}, False)
+                continue
+            if "run_failed" in res:
+                run_failed(res, "order", {"base": job["base"]})
+                continue
+            ob["real_runs"] += 1
+            base = {"kind": "restart.toml left behind by a real run (py/sysharness.py, lattice engine); fresh route: the same tables "
+                            "without [current], stored paths 0..n-1 of the same directory", "case": job["base"],
+                    "cstep": res["written"]["current"]["cstep"]}
+            items = []
+            for r in res["records"]:
+                var = r["var"]
+                it = dict(r, edited=order_edit(res["written"], var, res["steps"]), label=order_label(var),
+                          cls=f"quantis={var['q']}:engine0={var['e0']}:engines={var['ee']}", paths_present=True,
+                          base=base, base_kind="order", mode="order",
+                          case={"base": job["base"], "k": r["k"], "var": var, "route": r["route"]})
+                ob["configurations"] += 1
+                ob["accepted"] += r["impl"] == "OK"
+                ob["taken_through_setup_internal_and_first_picks"] += "init" in r
+                items.append(it)
+            judge_restart(items)
+        stats["wall_s"]["order_block"] = round(time.time() - t0, 1)
     finally:
         os.chdir(cwd)
         common.rmtree(d)
@@ -1109,6 +1551,11 @@ def run(ctx):
         f"and {stats['restart_route']['real_runs']} left behind by real runs on the lattice engine, each edited in every position of every class of the property's list, "
         "harmlessly, and by random replacement of all validated fields, then handed to the real setup_config as restart.toml / as infretis.toml + equal "
         "restart.toml / without [current]; plus a finished run and a missing stored path (no answer) per file. "
+        f"Order of normalisation and validation: on {stats['order_block']['bases']} lattice set-ups in which the program has really run, the full product quantis {{absent,false,true}} x "
+        "[engine0] {present,absent,misnamed} x [engine] {present,absent} x ensemble_engines {absent,[],engine,engine0 first,engine0 last,both,undefined} x "
+        "lambda_minus_one {absent,false,-1.5,0.0,0.5=interfaces[0]} x seed {absent,7} x accept_all {absent,true} (workers 1/n-1/n in turn; a further factor in the thorough tier), "
+        f"each as a fresh file and as the edited restart file of the run ({stats['order_block']['configurations']} files); the "
+        f"{stats['order_block']['taken_through_setup_internal_and_first_picks']} accepted ones went through the real setup_internal and the first picks. "
         "A case is distinct by its request line (= the whole configuration); every case is non-trivial (it is a configuration run through the real validator)")
     ctx.cov["correspondence"] = stats
     ctx.cov["trusted_base"] += [
@@ -1122,7 +1569,8 @@ def run(ctx):
         "numbers are ints or dyadic floats (exact comparisons); no NaN",
         "non-gromacs engine classes are lumped (the gromacs check only ever compares against a gromacs table)",
         "'no room' = interface_cap <= interfaces[max(i-1,0)] for an ensemble i < n_ens whose move is 'wf'",
-        "accepted_initialises only for the plain continuation of the real runs of the restart route",
+        "'initialises' = the real setup_internal and the first `workers` picks (what scheduler() does before the first MD step) raise nothing and answer in range; run with the lattice plug-in engine on stored lattice paths (order block), and to the end of the run for the plain continuations of the restart route",
+        "documented defaults (oracle, written independently): one ['engine'] per interface unless a non-empty ensemble_engines is given, ['engine0'] for [0-] under quantis; quantis / lambda_minus_one / accept_all false, seed 0",
         "restart route: rejection is observed at setup_config (its return value goes straight to the scheduler); a finished run or a missing stored path ends in None before any check",
     ]
 
@@ -1177,8 +1625,42 @@ def replay(doc):
         if tag != "ok":
             print("real run failed in the harness:", str(res)[-1500:])
             return 1
+        if "run_failed" in res:
+            print("real run fails:", res["run_failed"])
+            return 1
         print("real run:", {k: res["info"][k] for k in ("status", "cstep", "locked", "continuation")})
         bad = res["info"]["continuation"] != "ok"
+    elif mode == "order" and "var" in rp.get("case", {}):
+        # one real run on the lattice engine, then this one variation by this one route, through the real
+        # setup_config and - if accepted - the real setup_internal and the first picks
+        import sysharness as H
+        case = rp["case"]
+        job = {"base": case["base"], "variations": [(case["k"], case["var"])], "routes": [case["route"]]}
+        tag, res = H.run_many(order_block_child, [job], jobs=1, timeout=300)[0]
+        if tag != "ok" or "run_failed" in res:
+            print("real run failed:", str(res)[-1500:])
+            return 1
+        rec = res["records"][0]
+        edited = order_edit(res["written"], case["var"], res["steps"])
+        why = invalid_reasons(documented_defaults(slim(edited)))
+        r = common.Runner("c18")
+        model = r.run([setup_request(edited, case["route"])])[0].split(" ")[0]
+        print(f"input: {order_label(case['var'])}; route: {case['route']}; implementation now: {rec['impl']}; model (setup_from): {model}; "
+              f"invalid because: {why}; after acceptance: {rec.get('init')}")
+        bad = (bool(why) and outcome_class(rec["impl"]) not in ("CE", "NONE")) or \
+              (rec["impl"] == "OK" and not rec["init"]["ok"]) or (rec["impl"] == "OK" and bool(rec["returned_invalid"]))
+    elif mode == "restart" and cfg is not None:
+        d = common.scratch_dir("infv_c18_")
+        cwd = os.getcwd()
+        try:
+            os.chdir(d)
+            real, out = real_setup(cfg, d)
+            err = restart_fixed_point(out, d) if out is not None else None
+        finally:
+            os.chdir(cwd)
+            common.rmtree(d)
+        print(f"implementation now: {real}; restart round trip: {err or 'fixed point'}")
+        bad = err is not None
     else:
         print("nothing to re-run for this replay (proof obligation / restart fixed point)")
         return 0
